@@ -15,7 +15,18 @@ MODULES = {
 }
 
 
+def _scrub_environment():
+    """A run is a function of the code under test and VERIF_SEED: variables that look like credentials are removed
+    from the environment of the check (observers print the environment; violation details are written to replay
+    files)"""
+    import re
+    for name in list(os.environ):
+        if re.search(r'KEY|TOKEN|SECRET|PASSWORD|CREDENTIAL', name, re.I) and not name.startswith('VERIF_'):
+            del os.environ[name]
+
+
 def main() -> int:
+    _scrub_environment()
     ap = argparse.ArgumentParser()
     ap.add_argument('property')
     ap.add_argument('--tier', default=os.environ.get('VERIF_TIER', 'quick'), choices=['quick', 'thorough'])
